@@ -43,7 +43,7 @@ Definition model_agrees (builder : String.string) (bld : Builder) : bool :=
   forallb (fun mv : String.string * Value => Bool.eqb (table_accepts builder (fst mv)) (is_ok (push (snd mv) bld))) scalar_methods.
 Theorem C01_method_tables_match_model :
   model_agrees "BoolBuilder"%string (BdBool None [] 0) = true /\
-  model_agrees "IntBuilder"%string (BdPrim I64 None []) = true /\
+  model_agrees "IntBuilder"%string (BdPrim (PInt I64) None []) = true /\
   model_agrees "Utf8Builder"%string (BdUtf8 BUtf8 None [0%Z] []) = true.
 Proof. repeat split; vm_compute; reflexivity. Qed.
 
